@@ -30,7 +30,7 @@ from translate import utf8 as tr_utf8
 from vlib import core
 
 PROP = "C09"
-PROOF_MODULES = ["Abverif.Proofs.C09"]
+PROOF_MODULES = ["Abverif.Proofs.C09Tables", "Abverif.Proofs.C09"]
 TRANSLATORS = [tr_utf8.translate]
 TRUSTED = [
     "Lean 4.33 kernel; axioms of every theorem audited to be within {propext, Classical.choice, Quot.sound}",
@@ -378,8 +378,9 @@ def _run(ctx, res, scratch, internal):
     nproc = 1 if replay else 12
     heavy_enum = [it for it in enum_items if it[1] == 2]
     light_enum = [it for it in enum_items if it[1] < 2]
-    # thorough enumerates all 16.8 M three-byte strings: one public and one direct path per C loop is enough there
-    enum_impls = None if ctx.tier == "quick" else ["nvx.wrap", "nvx.impl2", "nvx.table", "nvx.unrolled"]
+        # impl 1/3/4 reach the same table loop through the same dispatcher as the default: they are swept on the transition
+    # relation and the call sequences, not on the big enumerations
+    enum_impls = ["nvx.wrap", "nvx.impl2", "nvx.table", "nvx.unrolled"]
     jobs = []
     hexseqs = [[c.hex() for c in cs] for cs in seqs]
     for w in range(nproc):
@@ -404,6 +405,8 @@ def _run(ctx, res, scratch, internal):
     # ---- implementation selection (websocket/__init__.py) and translator self-check against the live objects
     live_table = None
     for (mode, _, _, _), o in outs_ok:
+        if not o["autobahn_file"].startswith(str(core.REPO / "src")):
+            raise RuntimeError(f"worker imported autobahn from {o['autobahn_file']}, not from {core.REPO}/src")
         want = "autobahn.websocket.utf8validator" if mode == "pure" else "autobahn.nvx._utf8validator"
         if o["selected"] != want:
             res.violations.append(core.Violation(
